@@ -418,6 +418,17 @@ impl ApplicationHeader {
                     });
                 }
 
+                // I + type + address + priority (17), + delivery monitoring (18), + obsolescence period (21)
+                if ![17, 18, 21].contains(&block2.len()) {
+                    return Err(ParseError::InvalidBlockStructure {
+                        block: "2".to_string(),
+                        message: format!(
+                            "Input Block 2 must be 17, 18 or 21 characters long, got {}",
+                            block2.len()
+                        ),
+                    });
+                }
+
                 let raw_destination_address = block2[4..16].to_string();
                 let priority = block2[16..17].to_string();
 
@@ -502,6 +513,17 @@ impl ApplicationHeader {
                         block: "2".to_string(),
                         message: format!(
                             "Output Block 2 too short: expected at least 46 characters, got {}",
+                            block2.len()
+                        ),
+                    });
+                }
+
+                // 46 characters, or 47 with the priority
+                if block2.len() > 47 {
+                    return Err(ParseError::InvalidBlockStructure {
+                        block: "2".to_string(),
+                        message: format!(
+                            "Output Block 2 must be 46 or 47 characters long, got {}",
                             block2.len()
                         ),
                     });
@@ -1008,8 +1030,36 @@ impl std::fmt::Display for UserHeader {
             result.push_str(&format!("{{119:{validation_flag}}}"));
         }
 
+        if let Some(ref checkpoint) = self.balance_checkpoint {
+            result.push_str(&format!(
+                "{{423:{}{}{}}}",
+                checkpoint.date,
+                checkpoint.time,
+                checkpoint.hundredths_of_second.as_deref().unwrap_or("")
+            ));
+        }
+
+        if let Some(ref mir) = self.message_input_reference {
+            result.push_str(&format!(
+                "{{106:{}{}{}{}{}}}",
+                mir.date,
+                mir.lt_identifier,
+                mir.branch_code,
+                mir.session_number,
+                mir.sequence_number
+            ));
+        }
+
+        if let Some(ref related_reference) = self.related_reference {
+            result.push_str(&format!("{{424:{related_reference}}}"));
+        }
+
         if let Some(ref unique_end_to_end_ref) = self.unique_end_to_end_reference {
             result.push_str(&format!("{{121:{unique_end_to_end_ref}}}"));
+        }
+
+        if let Some(ref addressee_information) = self.addressee_information {
+            result.push_str(&format!("{{115:{addressee_information}}}"));
         }
 
         if let Some(ref service_type_identifier) = self.service_type_identifier {
